@@ -906,22 +906,20 @@ func (l *Lowerer) lowerGlobalVar(v *parser.VarDecl) error {
 	hasBinding := false
 	for _, attr := range v.Attributes {
 		if attr.Name == "group" && len(attr.Args) > 0 {
-			if lit, ok := attr.Args[0].(*parser.Literal); ok {
-				group, _ := strconv.ParseUint(lit.Value, 10, 32)
+			if group, ok := l.evalConstU32Expr(attr.Args[0]); ok {
 				if binding == nil {
 					binding = &ir.ResourceBinding{}
 				}
-				binding.Group = uint32(group)
+				binding.Group = group
 				hasGroup = true
 			}
 		}
 		if attr.Name == "binding" && len(attr.Args) > 0 {
-			if lit, ok := attr.Args[0].(*parser.Literal); ok {
-				bind, _ := strconv.ParseUint(lit.Value, 10, 32)
+			if bind, ok := l.evalConstU32Expr(attr.Args[0]); ok {
 				if binding == nil {
 					binding = &ir.ResourceBinding{}
 				}
-				binding.Binding = uint32(bind)
+				binding.Binding = bind
 				hasBinding = true
 			}
 		}
@@ -12926,22 +12924,20 @@ func (l *Lowerer) collectBinding(attrs []parser.Attribute) *ir.Binding {
 			}
 		case "location":
 			if len(attr.Args) > 0 {
-				if lit, ok := attr.Args[0].(*parser.Literal); ok {
-					loc, _ := strconv.ParseUint(lit.Value, 10, 32)
+				if loc, ok := l.evalConstU32Expr(attr.Args[0]); ok {
 					if locBinding == nil {
 						locBinding = &ir.LocationBinding{}
 					}
-					locBinding.Location = uint32(loc)
+					locBinding.Location = loc
 				}
 			}
 		case "blend_src":
 			if len(attr.Args) > 0 {
-				if lit, ok := attr.Args[0].(*parser.Literal); ok {
-					idx, _ := strconv.ParseUint(lit.Value, 10, 32)
+				if idx, ok := l.evalConstU32Expr(attr.Args[0]); ok {
 					if locBinding == nil {
 						locBinding = &ir.LocationBinding{}
 					}
-					v := uint32(idx)
+					v := idx
 					locBinding.BlendSrc = &v
 				}
 			}
@@ -13168,14 +13164,15 @@ func (l *Lowerer) extractWorkgroupSize(attrs []parser.Attribute) [3]uint32 {
 func (l *Lowerer) evalConstU32Expr(expr parser.Expr) (uint32, bool) {
 	switch e := expr.(type) {
 	case *parser.Literal:
-		if val, err := strconv.ParseUint(e.Value, 10, 32); err == nil {
-			return uint32(val), true
-		}
-		// Try parsing as signed
-		if val, err := strconv.ParseInt(e.Value, 10, 32); err == nil && val >= 0 {
+		// integer literal in any WGSL spelling: decimal or hex, optional i / u suffix
+		if val, err := strconv.ParseUint(strings.TrimRight(e.Value, "iu"), 0, 32); err == nil {
 			return uint32(val), true
 		}
 	case *parser.Ident:
+		// abstract-typed constants (const N = 2;) are not in module.Constants
+		if info, ok := l.abstractConstants[e.Name]; ok && info.scalarValue != nil {
+			return uint32(info.scalarValue.Bits), true
+		}
 		// Look up named constant
 		for _, c := range l.module.Constants {
 			if c.Name == e.Name {
